@@ -250,11 +250,11 @@ class Interp(Engine):
             return
         if st.spec:
             raise Outside("branching inside a specification expression")
-        s1 = st.fork().assume(cond)
+        s1 = st.fork().assume(cond, decision=True)
         s1.trace.append(label + ":T")
         if self.feasible(s1):
             yield s1, True
-        s2 = st.assume(z3.Not(cond))
+        s2 = st.assume(z3.Not(cond), decision=True)
         s2.trace.append(label + ":F")
         if self.feasible(s2):
             yield s2, False
@@ -274,9 +274,12 @@ class Interp(Engine):
             hops += 1
             if hops > 64:
                 raise Outside("scope chain too deep")
+        if name == 'GS' and self.ghost_ref is not None:
+            return self.ghost_ref
         g = st.frame.globs
         if name in g:
-            return g[name]
+            r = g[name]
+            return self.singleton_refs.get(id(r), r) if self.singleton_refs else r
         if st.spec and name in self.spec_globals:
             return self.spec_globals[name]
         if hasattr(builtins, name):
@@ -840,9 +843,10 @@ class Interp(Engine):
                 return
         # python modules / classes / other concrete objects: real attribute
         try:
-            yield st, getattr(v, name)
+            r = getattr(v, name)
         except AttributeError:
             raise Outside("attribute %s of %r" % (name, v))
+        yield st, (self.singleton_refs.get(id(r), r) if self.singleton_refs else r)
 
     def pkbalance_ty(self):
         return TUPLE(INT, LIST(CLS('OutputReference'))) if 'OutputReference' in self.reg.classes else None
@@ -872,7 +876,7 @@ class Interp(Engine):
                 yield st, V(t, r.ty)
                 return
             for ci in cis:
-                s2 = st.fork().assume(ci.recog(v.t))
+                s2 = st.fork().assume(ci.recog(v.t), decision=True)
                 s2.trace.append("isinstance:%s" % ci.name)
                 if self.feasible(s2):
                     yield from self.cls_getattr(V(v.t, CLS(ci.name)), name, s2, e)
